@@ -270,6 +270,44 @@ pub fn check_shared_first_moves(cx: &mut Cx, frame: &str, v: &Value, secrets: &[
     }
 }
 
+/// C17 across frames, one step further: a response divided by its challenge approximates (to a few
+/// units) whatever it masks when the mask is shorter than the challenge.  If that quantity is the
+/// randomness r of a group element G = g^y h^r of the same sub-proof, then G * h^(-floor(s/c) + k)
+/// = g^y for a small k: the blinding can be stripped by the recipient, and what is left is a
+/// function of the hidden value alone -- it repeats in every proof about the same secrets.
+pub fn check_strippable(cx: &mut Cx, frame: &str, origin: &str, v: &Value, n: &Integer, hs: &[Integer], extra_challenges: &[(String, Integer)], hist: &mut History) {
+    let ls = leaves(v);
+    let parent = |p: &str| p.rfind('.').map(|i| p[..i].to_string()).unwrap_or_default();
+    let strip_idx = |p: &str| generic_path(p).replace("recomputed:", "").replace("CL03.", "");
+    for (gp, g) in ls.iter().filter(|(p, x)| is_group_element(p) && *x > 1) {
+        let (p1, p2) = (parent(gp), parent(&parent(gp)));
+        let in_scope = |q: &str| (!p1.is_empty() && q.starts_with(&format!("{p1}."))) || (p2.matches('.').count() >= 1 && q.starts_with(&format!("{p2}.")));
+        let resp: Vec<&(String, Integer)> = ls.iter().filter(|(q, x)| in_scope(q) && !is_group_element(q) && *x > 0 && { let l = q.rsplit('.').next().unwrap_or(""); l != "challenge" && l != "C" && l != "randomness" }).collect();
+        let mut chals: Vec<Integer> = ls.iter().filter(|(q, x)| in_scope(q) && *x > 1 && { let l = q.rsplit('.').next().unwrap_or(""); l == "challenge" }).map(|(_, x)| x.clone()).collect();
+        chals.extend(extra_challenges.iter().filter(|(lab, _)| strip_idx(gp).starts_with(&strip_idx(lab))).map(|(_, c)| c.clone()));
+        for (sp, s) in &resp {
+            for c in &chals {
+                let q = Integer::from(s / c);
+                for k in 0..3u32 {
+                    let r = Integer::from(&q - k);
+                    if r <= 0 { continue; }
+                    for h in hs {
+                        cx.count("n.strip_attempts");
+                        let Ok(hinv) = pow(h, &r, n).invert(n) else { continue };
+                        let x = Integer::from(g * &hinv) % n;
+                        let key = (format!("{}*h^-floor({}/c)", generic_path(gp), generic_path(sp)), x.to_string_radix(16));
+                        match hist.combos.get(&key) {
+                            Some(prev) if prev != origin => cx.violation("C17", format!("{frame}/{}/blinding-strippable-by/{}", generic_path(gp), generic_path(sp)), format!("{gp} * h^(-floor({sp} / challenge) + {k}) has the same value in {prev} and in {origin}: the response gives away the randomness of the group element, and what remains depends on the hidden value only")),
+                            Some(_) => {}
+                            None => { hist.combos.insert(key, origin.to_string()); }
+                        }
+                    }
+                }
+            }
+        }
+    }
+}
+
 /// challenges of the hash-only sigma protocols (NISPSecrets / NISPMultiSecrets), recomputed
 /// from the frame and public data exactly as the verifier does
 fn nisp_secrets_challenge(g: &Integer, h: &Integer, cvalue: &Integer, t: &Integer) -> Integer {
@@ -380,6 +418,7 @@ pub fn run(cx: &mut Cx, which: Which) {
                         if let Some(w) = w { s.push(Secret { kind: "blinding-w-of-v".into(), value: w }); }
                         check_openings(cx, "PoKSignature", &v, &s, &pairs, &decoy, &extra);
                         check_combinations(cx, "PoKSignature", who, &v, &key4.pk.N, &mut hist.borrow_mut());
+                        check_strippable(cx, "PoKSignature", who, &v, &key4.pk.N, &[key4.cpk.h.clone()], &extra, &mut hist.borrow_mut());
                     }
                     Which::Masking => {
                         check_masking_h(cx, "PoKSignature", who, &v, &secrets, &extra, &mut hist.borrow_mut());
